@@ -57,6 +57,27 @@ fn main() {
             std::thread::sleep(std::time::Duration::from_secs(3600));
         }
     }
+    if args[1] == "worker" {
+        // scenarios run in a process of their own: `worker seccomp <Cxx> <seed> <n>`, `worker truncated <seed> <index>`
+        match args[2].as_str() {
+            "seccomp" => {
+                let prop = extra.first().cloned().unwrap_or_default();
+                let seed_: u64 = extra.get(1).and_then(|x| x.parse().ok()).unwrap_or(1);
+                let n: u64 = extra.get(2).and_then(|x| x.parse().ok()).unwrap_or(3);
+                if live::forbid_getregset() {
+                    c01::generate_counts(&prop, seed_ ^ 0x5ec, n, 0, 2, "q", &mut out);
+                }
+            }
+            "truncated" => {
+                let seed_: u64 = extra.first().and_then(|x| x.parse().ok()).unwrap_or(1);
+                let index: u64 = extra.get(1).and_then(|x| x.parse().ok()).unwrap_or(0);
+                writeln!(out, "{}", c02::case_truncated(&format!("k{}-{}", seed_, index), &mut rng::Rng::for_case(seed_, 4002, index))).unwrap();
+            }
+            _ => {}
+        }
+        out.flush().unwrap();
+        return;
+    }
     if args[1] == "one" {
         // re-run single cases by id: `<letter><seed>-<index>` (corpus entries are ids, never recorded outputs)
         for id in &extra {
